@@ -119,8 +119,8 @@ Theorem run_prints_all_freed input :
                  ++ [ok; res; nrem; time] ++ created ++ created ++ [0; 0; N.of_nat (length lg / 4)] ++ lg ++ [0])%N.
 Proof.
   unfold run, run_gen. pose proof (every_simulation_releases_everything input) as H.
-  destruct (stop_state false input) as [[s roots] [[[res nrem] time] lg]]. cbv zeta in H.
+  destruct (stop_state false input) as [[s roots] [[[[res nrem] time] lg] agree]]. cbv zeta in H.
   destruct H as (_ & _ & _ & _ & created & Hv). rewrite Hv.
-  exists (b2n (goodb false s roots)), res, nrem, time, created, lg.
+  exists (b2n (goodb false s roots && agree)), res, nrem, time, created, lg.
   rewrite <- !app_assoc. cbn [app]. reflexivity.
 Qed.
